@@ -1,4 +1,4 @@
-import DFV.Lemmas.C06MeanSeq
+import DFV.Lemmas.C06Line
 /-!
 # C06 — integrals and means are cell sums times cell measure, consistent across axes
 
@@ -636,14 +636,14 @@ cells into the region and is a whole number ≥ 1 of cells long on every axis) -
 /-- `integrate(d)` succeeds for every direction of a well-formed field whose subregions fit
 the mesh (the reduced mesh's subregion setter accepts the inherited subregions, which fit again):
 a field on the reduced mesh for two or more dimensions, the bare array in 1-d. -/
-theorem integrate_dir_ok (f : Fld) (hf : WF f) (hsubs : SubsFit f.mesh) (d : String)
+theorem integrate_dir_ok (f : Fld) (hf : WF f) (hsubs : SubsAcc f.mesh) (d : String)
     (hd : d ∈ f.mesh.region.dims) :
-    (2 ≤ f.mesh.ndim → ∃ g, integrate f (.name d) false = .ok (.field g) ∧ SubsFit g.mesh) ∧
+    (2 ≤ f.mesh.ndim → ∃ g, integrate f (.name d) false = .ok (.field g) ∧ SubsAcc g.mesh) ∧
     (f.mesh.ndim = 1 → ∃ v, integrate f (.name d) false = .ok (.vals v)) := by
   obtain ⟨ax, hax⟩ := dim2index_of_mem _ _ hd
   constructor
   · intro h2
-    obtain ⟨m', hsel, hms⟩ := sel_okS f.mesh hf.1 hsubs h2 d ax hax
+    obtain ⟨m', hsel, hms⟩ := sel_okA f.mesh hf.1 hsubs h2 d ax hax
     obtain ⟨ax', hax', _, _, _, _, _, _, _, hn, _, _⟩ := sel_spec f.mesh hf.1 d m' hsel
     rw [hax] at hax'; injection hax' with hax'; subst hax'
     have hne1 : ¬ f.mesh.ndim = 1 := by omega
@@ -661,7 +661,7 @@ theorem integrate_dir_ok (f : Fld) (hf : WF f) (hsubs : SubsFit f.mesh) (d : Str
 /-- Integrating direction by direction succeeds for every ordering `ds` of the directions
 (no repetition, every entry a direction of the mesh, all directions used) of a well-formed
 field whose subregions fit the mesh — and then gives `integrate()` (theorem `fubini`). -/
-theorem fubini_total (f : Fld) (hf : WF f) (hsubs : SubsFit f.mesh) (ds : List String)
+theorem fubini_total (f : Fld) (hf : WF f) (hsubs : SubsAcc f.mesh) (ds : List String)
     (hnd : ds.Nodup) (hmem : ∀ d ∈ ds, d ∈ f.mesh.region.dims) (hlen : ds.length = f.mesh.ndim) :
     integrateSeq f ds = integrate f .none false := by
   suffices hok : ∃ r, integrateSeq f ds = .ok r by
@@ -725,7 +725,7 @@ theorem integrate_cum_ok (f : Fld) (hf : WF f) (d : String) (hd : d ∈ f.mesh.r
 /-- Total form of the cumulative/total relation, two or more dimensions: for every direction
 of a well-formed field (fitting subregions) both integrals exist and the last cumulative entry
 along the axis plus half the last cell is the directional integral. -/
-theorem cumulative_last_total (f : Fld) (hf : WF f) (hsubs : SubsFit f.mesh) (h2 : 2 ≤ f.mesh.ndim) (d : String)
+theorem cumulative_last_total (f : Fld) (hf : WF f) (hsubs : SubsAcc f.mesh) (h2 : 2 ≤ f.mesh.ndim) (d : String)
     (hd : d ∈ f.mesh.region.dims) :
     ∃ ax gc gd, f.mesh.region.dim2index d = .ok ax ∧ integrate f (.name d) true = .ok (.field gc) ∧
       integrate f (.name d) false = .ok (.field gd) ∧
@@ -754,10 +754,10 @@ theorem cumulative_last_1d_total (f : Fld) (hf : WF f) (h1 : f.mesh.ndim = 1) (d
 
 /-- `mean(d)` succeeds for every direction of a well-formed field with fitting subregions that
 has at least two dimensions -/
-theorem mean_dir_ok (f : Fld) (hf : WF f) (hsubs : SubsFit f.mesh) (h2 : 2 ≤ f.mesh.ndim) (d : String)
+theorem mean_dir_ok (f : Fld) (hf : WF f) (hsubs : SubsAcc f.mesh) (h2 : 2 ≤ f.mesh.ndim) (d : String)
     (hd : d ∈ f.mesh.region.dims) : ∃ g, mean f (.name d) = .ok (.field g) := by
   obtain ⟨ax, hax⟩ := dim2index_of_mem _ _ hd
-  obtain ⟨m', hsel, _⟩ := sel_okS f.mesh hf.1 hsubs h2 d ax hax
+  obtain ⟨m', hsel, _⟩ := sel_okA f.mesh hf.1 hsubs h2 d ax hax
   obtain ⟨ax', hax', _, _, _, _, _, _, _, hn, _, _⟩ := sel_spec f.mesh hf.1 d m' hsel
   rw [hax] at hax'; injection hax' with hax'; subst hax'
   have hshape : (divBy f.nvdim ((f.data.shape.getD ax 0 : Nat) : Rat) (sumAxis f.nvdim f.data ax)).shape = m'.n := by
@@ -769,9 +769,9 @@ theorem mean_dir_ok (f : Fld) (hf : WF f) (hsubs : SubsFit f.mesh) (h2 : 2 ≤ f
 
 /-- one step of a direction-by-direction integration succeeds and keeps everything needed
 for the next step -/
-theorem step_ok (f : Fld) (hf : WF f) (hsubs : SubsFit f.mesh) (h2 : 2 ≤ f.mesh.ndim) (d : String)
+theorem step_ok (f : Fld) (hf : WF f) (hsubs : SubsAcc f.mesh) (h2 : 2 ≤ f.mesh.ndim) (d : String)
     (hd : d ∈ f.mesh.region.dims) :
-    ∃ g, integrate f (.name d) false = .ok (.field g) ∧ WF g ∧ SubsFit g.mesh ∧
+    ∃ g, integrate f (.name d) false = .ok (.field g) ∧ WF g ∧ SubsAcc g.mesh ∧
       g.mesh.ndim + 1 = f.mesh.ndim ∧
       ∀ d' ∈ f.mesh.region.dims, d' ≠ d → d' ∈ g.mesh.region.dims := by
   obtain ⟨g, hg, hgs⟩ := (integrate_dir_ok f hf hsubs d hd).1 h2
@@ -792,7 +792,7 @@ theorem step_ok (f : Fld) (hf : WF f) (hsubs : SubsFit f.mesh) (h2 : 2 ≤ f.mes
 
 /-- Integrating over some (not all) of the directions one after the other succeeds, for every
 order, on a well-formed field whose subregions fit the mesh. -/
-theorem integrateSeq_ok (f : Fld) (hf : WF f) (hsubs : SubsFit f.mesh) (ds : List String)
+theorem integrateSeq_ok (f : Fld) (hf : WF f) (hsubs : SubsAcc f.mesh) (ds : List String)
     (hnd : ds.Nodup) (hmem : ∀ d ∈ ds, d ∈ f.mesh.region.dims) (hlen : ds.length < f.mesh.ndim) :
     ∃ gi, integrateSeq f ds = .ok (.field gi) := by
   induction ds generalizing f with
@@ -807,7 +807,7 @@ theorem integrateSeq_ok (f : Fld) (hf : WF f) (hsubs : SubsFit f.mesh) (ds : Lis
 
 /-- `mean(list)` over some (not all) of the directions succeeds, for every order, on a
 well-formed field whose subregions fit the mesh. -/
-theorem mean_dirs_ok (f : Fld) (hf : WF f) (hsubs : SubsFit f.mesh) (ds : List String)
+theorem mean_dirs_ok (f : Fld) (hf : WF f) (hsubs : SubsAcc f.mesh) (ds : List String)
     (hnd : ds.Nodup) (hmem : ∀ d ∈ ds, d ∈ f.mesh.region.dims) (hlen : ds.length < f.mesh.ndim) :
     ∃ gm, mean f (.names ds) = .ok (.field gm) := by
   obtain ⟨gi, hgi⟩ := integrateSeq_ok f hf hsubs ds hnd hmem hlen
@@ -842,7 +842,7 @@ theorem mean_dir_1d_rejected (f : Fld) (hf : WF f) (h1 : f.mesh.ndim = 1) (d : S
 and for every list of distinct directions shorter than the number of dimensions, in any order,
 on a well-formed field with fitting subregions, both sides exist and `mean` is the (chained)
 integral divided by the integrated extent on the same reduced mesh. -/
-theorem mean_eq_total (f : Fld) (hf : WF f) (hsubs : SubsFit f.mesh) :
+theorem mean_eq_total (f : Fld) (hf : WF f) (hsubs : SubsAcc f.mesh) :
     (∀ d, 2 ≤ f.mesh.ndim → d ∈ f.mesh.region.dims →
       ∃ ax gi gm, f.mesh.region.dim2index d = .ok ax ∧ integrate f (.name d) false = .ok (.field gi) ∧
         mean f (.name d) = .ok (.field gm) ∧ gm.mesh = gi.mesh ∧
@@ -904,13 +904,13 @@ theorem integrate_translation_total (t : List Rat) (f : Fld) (hf : WF f) (hsubs 
         have hnd : (translate t f).mesh.ndim = f.mesh.ndim := by
           simp [translate, Mesh.ndim, Region.ndim, shiftRegion]
         by_cases h1 : f.mesh.ndim = 1
-        · obtain ⟨v, hv⟩ := (integrate_dir_ok _ hwt hst d hd').2 (by rw [hnd]; exact h1)
+        · obtain ⟨v, hv⟩ := (integrate_dir_ok _ hwt (subsAcc_of_fit _ hwt.1 hst) d hd').2 (by rw [hnd]; exact h1)
           exact ⟨_, hv⟩
         · have h2 : 2 ≤ f.mesh.ndim := by
             have := hf.1.1.1
             have h0 : f.mesh.ndim = f.mesh.region.pmin.length := rfl
             omega
-          obtain ⟨g, hg, _⟩ := (integrate_dir_ok _ hwt hst d hd').1 (by rw [hnd]; exact h2)
+          obtain ⟨g, hg, _⟩ := (integrate_dir_ok _ hwt (subsAcc_of_fit _ hwt.1 hst) d hd').1 (by rw [hnd]; exact h2)
           exact ⟨_, hg⟩
     | names ds => cases h
     | other => cases h
@@ -923,7 +923,7 @@ theorem integrate_translation_total (t : List Rat) (f : Fld) (hf : WF f) (hsubs 
 /-- Fubini, permutation form: for EVERY permutation `ds` of the mesh's directions, integrating
 direction by direction in that order succeeds (well-formed field, fitting subregions) and gives
 exactly `integrate()`. -/
-theorem fubini_perm (f : Fld) (hf : WF f) (hsubs : SubsFit f.mesh) (ds : List String)
+theorem fubini_perm (f : Fld) (hf : WF f) (hsubs : SubsAcc f.mesh) (ds : List String)
     (hp : ds.Perm f.mesh.region.dims) : integrateSeq f ds = integrate f .none false := by
   have hnd : ds.Nodup := hp.nodup_iff.mpr (nodup_of_hasDup _ hf.1.1.2.2.2.2.1)
   have hdl : f.mesh.region.dims.length = f.mesh.ndim := hf.1.1.2.2.1
@@ -961,7 +961,7 @@ theorem integrateSeq_perm (f : Fld) (hf : WF f) (ds ds' : List String) (hp : ds.
 
 /-- … and both exist: for every list `ds` of distinct directions (fewer than all) and every
 permutation `ds'` of it, both chained integrals succeed and agree. -/
-theorem integrateSeq_perm_total (f : Fld) (hf : WF f) (hsubs : SubsFit f.mesh) (ds ds' : List String)
+theorem integrateSeq_perm_total (f : Fld) (hf : WF f) (hsubs : SubsAcc f.mesh) (ds ds' : List String)
     (hnd : ds.Nodup) (hmem : ∀ d ∈ ds, d ∈ f.mesh.region.dims) (hlen : ds.length < f.mesh.ndim)
     (hp : ds.Perm ds') :
     ∃ g g', integrateSeq f ds = .ok (.field g) ∧ integrateSeq f ds' = .ok (.field g') ∧
@@ -1069,7 +1069,7 @@ theorem integrate_mean_dir_mesh (f : Fld) (d : String) (g : Fld) :
 /-- … and both exist: for every list of distinct directions shorter than the number of
 dimensions, in any order, on a well-formed field whose subregions fit the mesh, the
 direction-by-direction mean and `mean(list)` both succeed and agree (mesh and values). -/
-theorem meanSeq_total (f : Fld) (hf : WF f) (hsubs : SubsFit f.mesh) (ds : List String)
+theorem meanSeq_total (f : Fld) (hf : WF f) (hsubs : SubsAcc f.mesh) (ds : List String)
     (hnd : ds.Nodup) (hmem : ∀ d ∈ ds, d ∈ f.mesh.region.dims) (hlen : ds.length < f.mesh.ndim) :
     ∃ gs gm, meanSeq f ds = .ok (.field gs) ∧ mean f (.names ds) = .ok (.field gm) ∧ gs.mesh = gm.mesh ∧
       ∀ i c, inRange gm.data.shape i = true → c < f.nvdim → cget gs.data i c = cget gm.data i c := by
@@ -1289,7 +1289,7 @@ theorem result_meta (f : Fld) (g : Fld) :
 mesh, `integrate(direction, cumulative)` returns a result EXACTLY when either no direction is
 given and `cumulative` is false, or the direction is one name of the mesh (any number of
 dimensions, cumulative or not). -/
-theorem integrate_ok_iff (f : Fld) (hf : WF f) (hsubs : SubsFit f.mesh) (dir : Dir) (cum : Bool) :
+theorem integrate_ok_iff (f : Fld) (hf : WF f) (hsubs : SubsAcc f.mesh) (dir : Dir) (cum : Bool) :
     (∃ r, integrate f dir cum = .ok r) ↔
       (match dir with
        | .none => cum = false
@@ -1332,7 +1332,7 @@ theorem integrate_ok_iff (f : Fld) (hf : WF f) (hsubs : SubsFit f.mesh) (dir : D
 `mean(direction)` returns a result EXACTLY when no direction is given, or the direction is one
 name of a mesh with at least two dimensions, or it is a list of distinct names of the mesh (in
 any order; all of them, some of them or none). -/
-theorem mean_ok_iff (f : Fld) (hf : WF f) (hsubs : SubsFit f.mesh) (dir : Dir) :
+theorem mean_ok_iff (f : Fld) (hf : WF f) (hsubs : SubsAcc f.mesh) (dir : Dir) :
     (∃ r, mean f dir = .ok r) ↔
       (match dir with
        | .none => True
@@ -1388,7 +1388,7 @@ theorem subregions_fit_after_history (f : Fld) (hf : WF f) (hsubs : SubsFit f.me
     · exact subsFit_nil _ (runH_subs_nil steps f hnil)
   refine ⟨hwf, hfit, ?_⟩
   intro d hd cum
-  exact (integrate_ok_iff _ hwf hfit (.name d) cum).mpr (by rw [hdims]; exact hd)
+  exact (integrate_ok_iff _ hwf (subsAcc_of_fit _ hwf.1 hfit) (.name d) cum).mpr (by rw [hdims]; exact hd)
 
 /-! ## Refusals -/
 
@@ -1414,6 +1414,610 @@ theorem mean_rejects (f : Fld) (ds : List String) (h : hasDup ds = true) :
   unfold mean
   simp [h]
 
+/-! ## Subregions the setter accepts only thanks to its tolerances
+
+`SubOk m r`: the three checks of the `subregions` setter on one candidate (inside the region up
+to the region's `atol`; `Mesh(region=r, cell=mesh.cell)` can be built: 0.1 % divisibility, at
+least one cell; that mesh is aligned to 1e-12).  `SubAcc m s`: a STORED subregion passes these
+checks when offered again as the plain box `df.Region(p1, p2)` - which is what `Mesh.sel` does
+with the subregions it keeps.  `SubsAcc m`: every stored subregion does.  The success theorems
+above (`…_ok`, `fubini_total`, `fubini_perm`, `integrate_ok_iff`, `mean_ok_iff`, …) only assume
+`SubsAcc`; an exact fit (`SubsFit`) is the special case `exact_fit_accepted`. -/
+
+/-- The remainder test shared by the 0.1 % divisibility check of `Mesh(region, cell)` and by
+`Mesh.is_aligned` (C14's `aligned_tol_sound`, here with its converse): a length `e` passes
+`¬ (t < e mod c < c - t)` EXACTLY when it is within `t` of a whole number of cells. -/
+theorem remainder_test_iff (e c t : Rat) (hc : 0 < c) :
+    (decide (t < Mesh.remainder e c) && decide (Mesh.remainder e c < c - t)) = false ↔
+      ∃ z : Int, absR (e - (z : Rat) * c) ≤ t :=
+  ⟨remainder_test_sound e c t hc, fun ⟨z, hz⟩ => remainder_test_complete e c t hc z hz⟩
+
+/-- The `subregions` setter accepts a dictionary EXACTLY when every entry passes the three checks,
+and then stores each entry with the mesh's dims, units and tolerance. -/
+theorem setter_accepts_iff (m : Mesh) (subs : List (String × Region)) :
+    ((∃ t, setSubs m subs = .ok t) ↔ ∀ p ∈ subs, SubOk m p.2) ∧
+    ∀ t, setSubs m subs = .ok t → t = subs.map fun p => (p.1, restamp m p.2) :=
+  ⟨setSubs_iff m subs, fun t h => setSubs_val m subs t h⟩
+
+/-- What the tolerances let through, on every axis: an accepted box has a positive extent; its
+faces lie inside the mesh region or within the region's tolerance of the region's faces; its
+extent is within 0.1 % of the smallest cell of a whole number of cells and rounds to `k ≥ 1`
+cells whose length agrees with the mesh's cell length to `1e-12 + 1e-5·`; and both faces sit
+within `1e-12` of a whole number of cells from the corresponding faces of the region. -/
+theorem setter_accepts_per_axis (m : Mesh) (hm : m.Inv) (r : Region) (h : SubOk m r) (a : Nat) (ha : a < m.ndim) :
+    r.lo a < r.hi a ∧
+    (m.region.lo a ≤ r.lo a ∨ absR (m.region.lo a - r.lo a) ≤ m.region.atol + m.region.tol * absR (r.lo a)) ∧
+    (r.hi a ≤ m.region.hi a ∨ absR (m.region.hi a - r.hi a) ≤ m.region.atol + m.region.tol * absR (r.hi a)) ∧
+    (∃ z : Int, absR (r.edge a - (z : Rat) * m.cellAt a) ≤ listMin m.cell / 1000) ∧
+    (∃ k : Nat, 1 ≤ k ∧ (k : Int) = Mesh.roundHalfEven (r.edge a / m.cellAt a) ∧
+      absR (m.cellAt a - r.edge a / (k : Rat)) ≤ 1/1000000000000 + (1/100000) * absR (r.edge a / (k : Rat))) ∧
+    (∃ z : Int, absR (absR (m.region.lo a - r.lo a) - (z : Rat) * m.cellAt a) ≤ 1/1000000000000) ∧
+    (∃ z : Int, absR (absR (m.region.hi a - r.hi a) - (z : Rat) * m.cellAt a) ≤ 1/1000000000000) :=
+  subOk_sound m hm r h a ha
+
+/-- The exact fit is the tolerance-free special case: subregions that start a whole number of
+cells into the region and are a whole number ≥ 1 of cells long pass all three checks. -/
+theorem exact_fit_accepted (m : Mesh) (hm : m.Inv) (h : SubsFit m) : SubsAcc m := subsAcc_of_fit m hm h
+
+/-- **Acceptance is inherited by axis removal.**  A stored subregion that passes the setter's
+checks of the mesh passes, with one axis removed, the setter's checks of the reduced mesh: every
+check is per axis except three tolerances taken from a minimum over the axes (the region's
+`atol`, the box's own `atol`, 0.1 % of the smallest cell), and a minimum over fewer axes is not
+smaller.  There is NO exception: whatever the setter let through, `Mesh.sel(d)` lets through. -/
+theorem accepted_subregion_inherited (m : Mesh) (hm : m.Inv) (d : String) (ax : Nat)
+    (hax : m.region.dim2index d = .ok ax) (mc : Mesh) (hsel : sel { m with subs := [] } d = .ok mc)
+    (s : Region) (hs : SubAcc m s) : SubOk mc (projReg ax s) :=
+  subOk_proj m hm d ax hax mc hsel s hs
+
+/-- `Mesh.sel(d)` on a well-formed mesh (two or more dimensions) whose subregions passed the
+setter - exactly fitting or only within the tolerances -, for every direction `d`: it SUCCEEDS
+and returns the reduced mesh of the same mesh without subregions, carrying exactly the
+subregions whose closed extent along the removed axis contains the centre of cell ⌊n/2⌋ of that
+axis, each with that axis removed and the reduced mesh's dims / units / tolerance; these pass the
+checks of the reduced mesh again (so the next `sel` / `integrate` / `mean` succeeds too). -/
+theorem sel_subregions_acc (m : Mesh) (hm : m.Inv) (hacc : SubsAcc m) (h2 : 2 ≤ m.ndim) (d : String)
+    (hd : d ∈ m.region.dims) :
+    ∃ ax mc m', m.region.dim2index d = .ok ax ∧ sel { m with subs := [] } d = .ok mc ∧ sel m d = .ok m' ∧
+      m'.region = mc.region ∧ m'.n = mc.n ∧ m'.bc = "" ∧
+      m'.subs = (keepSubs ax (m.region.lo ax + (((m.nAt ax / 2 : Nat) : Rat) + 1/2) * m.cellAt ax) m.subs).map
+        (fun p => (p.1, restamp mc (projReg ax p.2))) ∧
+      SubsAcc m' := by
+  obtain ⟨ax, hax⟩ := dim2index_of_mem _ _ hd
+  obtain ⟨s, mc, m', hs, hsel0, hsel, hm', hacc'⟩ := sel_ok_acc m hm hacc h2 d ax hax
+  obtain ⟨haxd, _⟩ := dim2index_ok _ _ _ hax
+  have haxlt : ax < m.ndim := by
+    show ax < m.region.pmin.length
+    rw [← hm.1.2.2.1]; exact haxd
+  rw [selCentre_eq m hm ax haxlt] at hs
+  injection hs with hs
+  obtain ⟨_, _, _, _, _, _, _, _, _, _, hbc, _⟩ := sel_spec m hm d m' hsel
+  exact ⟨ax, mc, m', hax, hsel0, hsel, by rw [hm'], by rw [hm'], hbc, by rw [hm', hs], hacc'⟩
+
+/-! ## Quarter turns: `Field.rotate90` permutes the cells and trades the cell lengths
+
+`rotate90F` is the shared exact model of `Field.rotate90` (`DFV/Model/Transform.lean`, property
+C12): the copying rotation of the mesh, `np.rot90` on values and validity, the two mapped
+components turned by the exact matrix (`cosq`, `sinq` ∈ {0, ±1}).  `srcIdx sh p q k j` is the
+index `np.rot90` reads entry `j` from; `rotSrc i1 i2 k a` is the axis that ends up on axis `a`
+(the other one of the pair for odd `k`); `csum f c` is the sum of component `c` over all cells. -/
+
+/-- **The sum over all cells is invariant under `np.rot90`**, for every integer `k`, every pair
+of distinct axes and every shape: the source indices of the turned shape are a permutation of
+the indices of the shape. -/
+theorem rot90_sum_invariant (sh : List Nat) (p q : Nat) (k : Int) (hpq : p ≠ q) (hp : p < sh.length) (hq : q < sh.length)
+    (hpos : ∀ n ∈ sh, 0 < n) (G : List Nat → Rat) :
+    nestSum (T.rotN sh p q k) (fun j => G (T.srcIdx sh p q k j)) = nestSum sh G :=
+  nestSum_rot sh p q k hpq hp hq hpos G
+
+/-- **What an accepted `Field.rotate90` does, exactly** (either form, every integer `k`, any
+reference point, any number of dimensions): the result is a well-formed field on the turned mesh
+- same direction names, cell counts / edge lengths / cell lengths of the two axes traded for odd
+`k` and kept for even `k`, the SAME cell volume -, its cells are those of the field permuted by
+`np.rot90`, and for a vector field the two mapped components of every cell are turned by the
+exact quarter-turn matrix. -/
+theorem rotate90_cells (f : Fld) (hf : WF f) (a1 a2 : String) (k : Int) (ref : Option (List Rat)) (b : Bool)
+    (x g : Fld) (h : T.rotate90F f a1 a2 k ref b = .ok (x, g)) :
+    ∃ i1 i2, f.mesh.region.dim2index a1 = .ok i1 ∧ f.mesh.region.dim2index a2 = .ok i2 ∧ i1 ≠ i2 ∧
+      i1 < f.mesh.ndim ∧ i2 < f.mesh.ndim ∧ WF g ∧ g.nvdim = f.nvdim ∧ g.mesh.ndim = f.mesh.ndim ∧
+      g.mesh.region.dims = f.mesh.region.dims ∧ g.mesh.n = T.rotN f.mesh.n i1 i2 k ∧
+      g.data.shape = T.rotN f.data.shape i1 i2 k ∧
+      (∀ a, a < f.mesh.ndim → g.mesh.cellAt a = f.mesh.cellAt (T.rotSrc i1 i2 k a)) ∧
+      (∀ a, a < f.mesh.ndim → g.mesh.region.edge a = f.mesh.region.edge (T.rotSrc i1 i2 k a)) ∧
+      dV g.mesh = dV f.mesh ∧ g.vdims = f.vdims ∧ g.vmap = f.vmap ∧ g.unit = f.unit ∧ (x = if b then g else f) ∧
+      ((f.nvdim ≤ 1 ∧ ∀ j, g.data.get j = f.data.get (T.srcIdx f.data.shape i1 i2 k j)) ∨
+       (f.nvdim > 1 ∧ ∃ c1 c2, (f.rDim a1).bind f.vdimIndex = some c1 ∧ (f.rDim a2).bind f.vdimIndex = some c2 ∧
+          ∀ j, g.data.get j = T.rotVec (f.data.get (T.srcIdx f.data.shape i1 i2 k j)) c1 c2 k)) :=
+  rotate90F_cells f hf a1 a2 k ref b x g h
+
+/-- A quarter turn of a field is accepted EXACTLY when its arguments are well formed (C13's
+characterisation, restated for the histories of this property): two different direction names of
+the mesh, a reference point with one coordinate per direction, and - for a vector field - both
+directions mapped to a component.  `T.FInv`: mesh and array shapes consistent, subregions on the
+cell lattice, well-formed `bc`. -/
+theorem rotate90_accepted_iff (f : Fld) (hf : T.FInv f) (a1 a2 : String) (k : Int) (ref : Option (List Rat)) (b : Bool) :
+    (∃ x g, T.rotate90F f a1 a2 k ref b = .ok (x, g)) ↔ ¬ T.MalformedF f (.rotate90 a1 a2 k ref b) :=
+  rotate90F_ok_iff f hf a1 a2 k ref b
+
+/-- **`integrate()` under a quarter turn**: the volume integral of the turned field is the volume
+integral of the field with the two mapped components turned by the quarter-turn matrix
+(`turnVals`; a scalar field: literally the same number) - the permutation of the cells does not
+change the sum, the trade of the cell lengths does not change the cell volume. -/
+theorem rotate90_integrate_all (f : Fld) (hf : WF f) (hl : CellLen f) (a1 a2 : String) (k : Int)
+    (ref : Option (List Rat)) (b : Bool) (x g : Fld) (h : T.rotate90F f a1 a2 k ref b = .ok (x, g)) :
+    ∃ v, integrate f .none false = .ok (.vals v) ∧ integrate g .none false = .ok (.vals (turnVals f a1 a2 k v)) ∧
+      (f.nvdim ≤ 1 → integrate g .none false = integrate f .none false) := by
+  refine ⟨_, integrate_all_csum f, integrate_all_rot f hf hl a1 a2 k ref b x g h _ (integrate_all_csum f), ?_⟩
+  intro h1
+  rw [integrate_all_rot f hf hl a1 a2 k ref b x g h _ (integrate_all_csum f), integrate_all_csum f]
+  unfold turnVals
+  rw [if_neg (by omega)]
+
+/-- **Directional integrals follow the axes under a quarter turn.**  For every direction `d` of
+the mesh (in or out of the plane of rotation), `integrate(d)` of the turned field at the reduced
+cell `i` is `integrate(d')` of the field at the source cell of `i` (axis `d'` removed), where `d'`
+is the direction that was turned onto `d` (`d` itself unless `k` is odd and `d` is one of the two
+axes) - with the two mapped components of a vector field turned by the quarter-turn matrix.  The
+cell length used is that of `d'`, the sum runs along `d'` (forwards or backwards): a wrong axis or a
+cell length taken from the wrong direction after a turn would contradict this. -/
+theorem rotate90_integrate_dir (f : Fld) (hf : WF f) (hl : CellLen f) (a1 a2 : String) (k : Int)
+    (ref : Option (List Rat)) (b : Bool) (x g : Fld) (h : T.rotate90F f a1 a2 k ref b = .ok (x, g)) (d : String) (r : Res)
+    (hr : integrate g (.name d) false = .ok r) :
+    ∃ i1 i2 a, f.mesh.region.dim2index a1 = .ok i1 ∧ f.mesh.region.dim2index a2 = .ok i2 ∧
+      f.mesh.region.dim2index d = .ok a ∧ r.shape = removeAt (T.rotN f.mesh.n i1 i2 k) a ∧
+      ∀ i c, inRange (removeAt (T.rotN f.mesh.n i1 i2 k) a) i = true → c < f.nvdim →
+        inRange (removeAt f.mesh.n (T.rotSrc i1 i2 k a))
+          (removeAt (T.srcIdx f.mesh.n i1 i2 k (insertAt i a 0)) (T.rotSrc i1 i2 k a)) = true ∧
+        r.cval i c = (turnVals f a1 a2 k (tab f.nvdim fun c' =>
+          ival f (.name (f.mesh.region.dims.getD (T.rotSrc i1 i2 k a) "")) false
+            (removeAt (T.srcIdx f.mesh.n i1 i2 k (insertAt i a 0)) (T.rotSrc i1 i2 k a)) c')).getD c 0 := by
+  obtain ⟨i1, i2, a, d1, d2, hax, haxlt, hsrc, hrs, hval⟩ := rot_dir_vals f hf hl a1 a2 k ref b x g h d r hr
+  refine ⟨i1, i2, a, d1, d2, hax, hrs, ?_⟩
+  intro i c hi hc
+  obtain ⟨hJ, hv⟩ := hval i c hi hc
+  refine ⟨inRange_removeAt _ _ _ hJ, ?_⟩
+  rw [hv]
+  congr 2
+  apply tab_congr
+  intro c' _
+  have hdl : f.mesh.region.dims.length = f.mesh.ndim := hf.1.1.2.2.1
+  have hd' := dim2index_getD f.mesh.region hf.1.1.2.2.2.2.1 (T.rotSrc i1 i2 k a) (by rw [hdl]; exact hsrc)
+  simp only [ival, hd', Bool.false_eq_true, if_false]
+  congr 1
+  apply sumTo_congr
+  intro u _
+  rw [insertAt_removeAt _ _ _ (by rw [inRange_length _ _ hJ, hf.1.2.1]; exact hsrc)]
+
+/-- **Directional means follow the axes too**: `mean(d)` of the turned field at the reduced cell
+`i` is the turned directional integral of `rotate90_integrate_dir` divided by the edge length of
+the direction `d'` that was turned onto `d` (the integrated extent follows the axis, like the
+cell length). -/
+theorem rotate90_mean_dir (f : Fld) (hf : WF f) (hl : CellLen f) (a1 a2 : String) (k : Int)
+    (ref : Option (List Rat)) (b : Bool) (x g : Fld) (h : T.rotate90F f a1 a2 k ref b = .ok (x, g)) (d : String) (gi : Fld)
+    (r : Res) (hi : integrate g (.name d) false = .ok (.field gi)) (hr : mean g (.name d) = .ok r) :
+    ∃ i1 i2 a, f.mesh.region.dim2index a1 = .ok i1 ∧ f.mesh.region.dim2index a2 = .ok i2 ∧
+      f.mesh.region.dim2index d = .ok a ∧ r.shape = removeAt (T.rotN f.mesh.n i1 i2 k) a ∧
+      ∀ i c, inRange (removeAt (T.rotN f.mesh.n i1 i2 k) a) i = true → c < f.nvdim →
+        r.cval i c = (turnVals f a1 a2 k (tab f.nvdim fun c' =>
+          ival f (.name (f.mesh.region.dims.getD (T.rotSrc i1 i2 k a) "")) false
+            (removeAt (T.srcIdx f.mesh.n i1 i2 k (insertAt i a 0)) (T.rotSrc i1 i2 k a)) c')).getD c 0
+          / f.mesh.region.edge (T.rotSrc i1 i2 k a) := by
+  obtain ⟨j1, j2, e1, e2, _, _, _, hwg, hnv, _, hdims, hn, _, _, hedge, _⟩ := rotate90_cells f hf a1 a2 k ref b x g h
+  obtain ⟨i1, i2, a, d1, d2, hax, hrs, hval⟩ := rotate90_integrate_dir f hf hl a1 a2 k ref b x g h d (.field gi) hi
+  rw [e1] at d1; injection d1 with d1; subst d1
+  rw [e2] at d2; injection d2 with d2; subst d2
+  obtain ⟨a', gm, hax', hrm, _, hshape, _, _, _, hmv⟩ := mean_dir_eq g hwg d gi r hi hr
+  rw [dim2index_congr f.mesh.region g.mesh.region hdims d, hax] at hax'
+  injection hax' with hax'; subst hax'
+  subst hrm
+  have haxlt : a < f.mesh.ndim := by
+    obtain ⟨hl', _⟩ := dim2index_ok _ _ _ hax
+    have hdl : f.mesh.region.dims.length = f.mesh.ndim := hf.1.1.2.2.1
+    rw [← hdl]; exact hl'
+  refine ⟨j1, j2, a, e1, e2, hax, ?_, ?_⟩
+  · show gm.data.shape = _
+    rw [hshape]; exact hrs
+  · intro i c hi' hc
+    rw [hn] at hmv
+    show cget gm.data i c = _
+    rw [hmv i c hi' (by rw [hnv]; exact hc), hedge a haxlt]
+    have := (hval i c hi' hc).2
+    simp only [Res.cval] at this
+    rw [this]
+
+/-- **`mean()` under a quarter turn** likewise: the mean of the turned field is the mean of the
+field with the two mapped components turned; a scalar field's mean is unchanged. -/
+theorem rotate90_mean_all (f : Fld) (hf : WF f) (hl : CellLen f) (a1 a2 : String) (k : Int)
+    (ref : Option (List Rat)) (b : Bool) (x g : Fld) (h : T.rotate90F f a1 a2 k ref b = .ok (x, g)) :
+    ∃ v, mean f .none = .ok (.vals v) ∧ mean g .none = .ok (.vals (turnVals f a1 a2 k v)) ∧
+      (f.nvdim ≤ 1 → mean g .none = mean f .none) := by
+  refine ⟨_, mean_all_csum f, mean_all_rot f hf hl a1 a2 k ref b x g h _ (mean_all_csum f), ?_⟩
+  intro h1
+  rw [mean_all_rot f hf hl a1 a2 k ref b x g h _ (mean_all_csum f), mean_all_csum f]
+  unfold turnVals
+  rw [if_neg (by omega)]
+
+/-- After an accepted quarter turn of a well-formed field on a mesh without subregions every
+directional integral, cumulative integral and accepted mean exists again (the turned field is well
+formed and has no subregions), and integrating it direction by direction in any order gives its
+`integrate()` - which is the turned `integrate()` of the field (`rotate90_integrate_all`). -/
+theorem rotate90_then_integrate_ok (f : Fld) (hf : WF f) (hs : f.mesh.subs = []) (a1 a2 : String) (k : Int)
+    (ref : Option (List Rat)) (b : Bool) (x g : Fld) (h : T.rotate90F f a1 a2 k ref b = .ok (x, g)) :
+    WF g ∧ SubsAcc g.mesh ∧
+    (∀ d, d ∈ f.mesh.region.dims → ∀ cum, ∃ r, integrate g (.name d) cum = .ok r) ∧
+    (∀ ds : List String, ds.Perm f.mesh.region.dims → integrateSeq g ds = integrate g .none false) := by
+  obtain ⟨_, _, _, _, _, _, _, hwg, _, _, hdims, _⟩ := rotate90_cells f hf a1 a2 k ref b x g h
+  have hacc : SubsAcc g.mesh := subsAcc_nil _ (rotate90F_subs_nil f hs a1 a2 k ref b x g h)
+  refine ⟨hwg, hacc, ?_, ?_⟩
+  · intro d hd cum
+    exact (integrate_ok_iff g hwg hacc (.name d) cum).mpr (by rw [hdims]; exact hd)
+  · intro ds hp
+    exact fubini_perm g hwg hacc ds (by rw [hdims]; exact hp)
+
+/-- **Histories with quarter turns** (`runFS`: in-place steps on the mesh / region object AND
+`field.rotate90(…, inplace=True)`, in any order and number; a rejected step changes nothing): the
+field stays well formed with `nvdim` components per cell; the cell volume is the accumulated
+volume factor (`fhistVol`: the scale steps only - a quarter turn contributes 1) times the original
+one; `integrate()` is the current cell volume times the per-component cell sums turned by the
+accepted turns of the history (`fhistTurn`), `mean()` those sums divided by the number of cells. -/
+theorem turns_history (f : Fld) (hf : WF f) (hl : CellLen f) (steps : List FStep) :
+    WF (runFS f steps) ∧ CellLen (runFS f steps) ∧ (runFS f steps).nvdim = f.nvdim ∧
+    dV (runFS f steps).mesh = fhistVol f steps * dV f.mesh ∧
+    integrate (runFS f steps) .none false = .ok (.vals (tab f.nvdim fun c =>
+      fhistVol f steps * dV f.mesh * (fhistTurn f steps (tab f.nvdim (csum f))).getD c 0)) ∧
+    mean (runFS f steps) .none = .ok (.vals (tab f.nvdim fun c =>
+      (fhistTurn f steps (tab f.nvdim (csum f))).getD c 0 / (natProd f.data.shape : Rat))) := by
+  obtain ⟨h1, h2, h3, h4, h5, h6⟩ := runFS_spec steps f hf hl
+  refine ⟨h1, h2, h3, h4, ?_, ?_⟩
+  · rw [integrate_all_csum, h3, h4]
+    congr 2
+    apply tab_congr
+    intro c hc
+    rw [← h6, getD_tab _ _ _ _ hc]
+  · rw [mean_all_csum, h3, h5]
+    congr 2
+    apply tab_congr
+    intro c hc
+    rw [← h6, getD_tab _ _ _ _ hc]
+
+/-- … for a scalar field the turns do not show at all: `integrate()` after any such history is
+the accumulated volume factor times `integrate()` before, `mean()` is literally unchanged; and
+after a history of quarter turns only, cell volume and `integrate()` are literally unchanged. -/
+theorem turns_history_scalar (f : Fld) (hf : WF f) (hl : CellLen f) (h1 : f.nvdim ≤ 1) (steps : List FStep) :
+    integrate (runFS f steps) .none false
+      = .ok (.vals (tab f.nvdim fun c => fhistVol f steps * (dV f.mesh * csum f c))) ∧
+    mean (runFS f steps) .none = mean f .none ∧
+    ((∀ s ∈ steps, ∃ a1 a2 k ref, s = FStep.rot a1 a2 k ref) →
+      dV (runFS f steps).mesh = dV f.mesh ∧ integrate (runFS f steps) .none false = integrate f .none false) := by
+  obtain ⟨_, _, _, hdv, hint, hmean⟩ := turns_history f hf hl steps
+  have ht := fhistTurn_scalar steps f hf hl h1 (tab f.nvdim (csum f))
+  have e1 : integrate (runFS f steps) .none false
+      = .ok (.vals (tab f.nvdim fun c => fhistVol f steps * (dV f.mesh * csum f c))) := by
+    rw [hint, ht]
+    congr 2
+    apply tab_congr
+    intro c hc
+    rw [getD_tab _ _ _ _ hc]; ring
+  refine ⟨e1, ?_, ?_⟩
+  · rw [hmean, ht, mean_all_csum]
+    congr 2
+    apply tab_congr
+    intro c hc
+    rw [getD_tab _ _ _ _ hc]
+  · intro hall
+    have hv := fhistVol_turns steps hall f
+    refine ⟨by rw [hdv, hv]; ring, ?_⟩
+    rw [e1, hv, integrate_all_csum]
+    congr 2
+    apply tab_congr
+    intro c _
+    ring
+
+/-! ## The cumulative integral, composed with further `integrate` calls -/
+
+/-- Trapezoid rule between ANY two cells of a line: the cumulative entries at positions `a` and
+`a + b + 1` along the axis differ by the cell length times (half the first cell + the cells
+strictly between + half the last cell). -/
+theorem cumulative_between (f : Fld) (d : String) (g : Fld) (h : integrate f (.name d) true = .ok (.field g)) :
+    ∃ ax, f.mesh.region.dim2index d = .ok ax ∧
+      ∀ i c (b : Nat), inRange f.data.shape i = true → i.getD ax 0 + b + 1 < f.data.shape.getD ax 0 → c < f.nvdim →
+        cget g.data (setAt i ax (i.getD ax 0 + b + 1)) c - cget g.data i c
+          = f.mesh.cellAt ax * (cget f.data i c / 2
+              + sumTo b (fun t => cget f.data (setAt i ax (i.getD ax 0 + 1 + t)) c)
+              + cget f.data (setAt i ax (i.getD ax 0 + b + 1)) c / 2) := by
+  obtain ⟨ax, g', hax, hr, _, _, _, _, hcum⟩ := cumulative_formula f d _ h
+  injection hr with hr; subst hr
+  refine ⟨ax, hax, ?_⟩
+  intro i c b hi hlt hc
+  have haxs : ax < f.data.shape.length := lt_length_of_getD_pos _ _ (by omega)
+  have haxi : ax < i.length := by rw [inRange_length _ _ hi]; exact haxs
+  have hi' : inRange f.data.shape (setAt i ax (i.getD ax 0 + b + 1)) = true := inRange_setAt _ _ _ _ hi hlt
+  rw [hcum _ c hi' hc, hcum i c hi hc, getD_setAt_self i ax _ haxi]
+  simp only [setAt_setAt]
+  have hb := sumTo_between (i.getD ax 0) b (fun l => cget f.data (setAt i ax l) c)
+  simp only [setAt_getD_self] at hb
+  have : sumTo (i.getD ax 0 + b + 1) (fun l => cget f.data (setAt i ax l) c)
+      = sumTo (i.getD ax 0) (fun l => cget f.data (setAt i ax l) c) + cget f.data i c
+        + sumTo b (fun t => cget f.data (setAt i ax (i.getD ax 0 + 1 + t)) c) := by linarith
+  rw [this]; ring
+
+/-- The cumulative integral integrated once more along the SAME direction (any number of
+dimensions; the bare array in 1-d): every cell counts with the distance from its centre to the
+upper face of the mesh, `∫F = cell² · Σ_l (n - l - 1/2)·x_l` - the discrete form of Cauchy's
+formula `∫_a^b ∫_a^x f = ∫_a^b (b - x) f(x) dx`. -/
+theorem cumulative_then_integrate_same (f : Fld) (hf : WF f) (d : String) (gc : Fld) (r : Res)
+    (hc : integrate f (.name d) true = .ok (.field gc)) (hr : integrate gc (.name d) false = .ok r) :
+    ∃ ax, f.mesh.region.dim2index d = .ok ax ∧ r.shape = removeAt f.mesh.n ax ∧ r.nv = f.nvdim ∧
+      ∀ i c, inRange (removeAt f.mesh.n ax) i = true → c < f.nvdim →
+        r.cval i c = f.mesh.cellAt ax * f.mesh.cellAt ax *
+          sumTo (f.mesh.nAt ax) (fun l => ((f.mesh.nAt ax : Rat) - (l : Rat) - 1/2) * cget f.data (insertAt i ax l) c) :=
+  cum_then_same f hf d gc r hc hr
+
+/-- The cumulative integral along `d` and the integral along ANOTHER direction `d'` commute: on a
+well-formed field (two or more dimensions, subregions accepted by the setter) all four
+integrals exist, and integrating the cumulative integral along `d'` gives the same field - same
+reduced mesh (subregions included), same values - as the cumulative integral along `d` of the
+integral along `d'`. -/
+theorem cumulative_then_integrate_other (f : Fld) (hf : WF f) (hsubs : SubsAcc f.mesh) (h2 : 2 ≤ f.mesh.ndim)
+    (d d' : String) (hd : d ∈ f.mesh.region.dims) (hd' : d' ∈ f.mesh.region.dims) (hne : d ≠ d') :
+    ∃ gc g1 h g2, integrate f (.name d) true = .ok (.field gc) ∧ integrate gc (.name d') false = .ok (.field g1) ∧
+      integrate f (.name d') false = .ok (.field h) ∧ integrate h (.name d) true = .ok (.field g2) ∧
+      g1.mesh = g2.mesh ∧ g1.data.shape = g2.data.shape ∧
+      ∀ i c, inRange g1.data.shape i = true → c < f.nvdim → cget g1.data i c = cget g2.data i c := by
+  obtain ⟨gc, hgc⟩ := integrate_cum_ok f hf d hd
+  obtain ⟨_, _, hm, _, _, _, _⟩ := cum_spec f d gc hgc
+  have hwg := cum_wf f hf d gc hgc
+  obtain ⟨g1, hg1, _⟩ := (integrate_dir_ok gc hwg (by rw [hm]; exact hsubs) d' (by rw [hm]; exact hd')).1 (by rw [hm]; exact h2)
+  obtain ⟨h, hh, hwh, _, _, hmem⟩ := step_ok f hf hsubs h2 d' hd'
+  obtain ⟨g2, hg2⟩ := integrate_cum_ok h hwh d (hmem d hd hne)
+  obtain ⟨e1, e2, _, e4⟩ := cum_then_other f hf d d' gc g1 h g2 hgc hg1 hh hg2
+  exact ⟨gc, g1, h, g2, hgc, hg1, hh, hg2, e1, e2, e4⟩
+
+/-- Two cumulative integrals along different directions commute: on every well-formed field all
+four exist (any number of dimensions, subregions or not) and `integrate(d, cumulative=True)`
+followed by `integrate(d', cumulative=True)` is the same field as the other order. -/
+theorem cumulative_cumulative_commute (f : Fld) (hf : WF f) (d d' : String) (hd : d ∈ f.mesh.region.dims)
+    (hd' : d' ∈ f.mesh.region.dims) (hne : d ≠ d') :
+    ∃ g1 g12 g2 g21, integrate f (.name d) true = .ok (.field g1) ∧ integrate g1 (.name d') true = .ok (.field g12) ∧
+      integrate f (.name d') true = .ok (.field g2) ∧ integrate g2 (.name d) true = .ok (.field g21) ∧
+      g12.mesh = g21.mesh ∧ g12.data.shape = g21.data.shape ∧
+      ∀ i c, inRange f.data.shape i = true → c < f.nvdim → cget g12.data i c = cget g21.data i c := by
+  obtain ⟨g1, hg1⟩ := integrate_cum_ok f hf d hd
+  obtain ⟨g2, hg2⟩ := integrate_cum_ok f hf d' hd'
+  obtain ⟨_, _, hm1, _, _, _, _⟩ := cum_spec f d g1 hg1
+  obtain ⟨_, _, hm2, _, _, _, _⟩ := cum_spec f d' g2 hg2
+  obtain ⟨g12, hg12⟩ := integrate_cum_ok g1 (cum_wf f hf d g1 hg1) d' (by rw [hm1]; exact hd')
+  obtain ⟨g21, hg21⟩ := integrate_cum_ok g2 (cum_wf f hf d' g2 hg2) d (by rw [hm2]; exact hd)
+  obtain ⟨e1, e2, _, e4⟩ := cum_cum_comm f d d' hne g1 g12 g2 g21 hg1 hg12 hg2 hg21
+  exact ⟨g1, g12, g2, g21, hg1, hg12, hg2, hg21, e1, e2, e4⟩
+
+/-- The same two commutation laws for the chained call `integrateChain` (the form the
+correspondence check exercises: `f.integrate(d, cumulative=True).integrate(d')` …): for two
+different directions of a well-formed field (two or more dimensions, subregions accepted by the
+setter) the chains in both orders succeed and agree in mesh and values - a cumulative step with a
+plain step, and two cumulative steps. -/
+theorem integrateChain_commute (f : Fld) (hf : WF f) (hsubs : SubsAcc f.mesh) (h2 : 2 ≤ f.mesh.ndim)
+    (d d' : String) (hd : d ∈ f.mesh.region.dims) (hd' : d' ∈ f.mesh.region.dims) (hne : d ≠ d') :
+    (∃ g1 g2, integrateChain f [(d, true), (d', false)] = .ok (.field g1) ∧
+      integrateChain f [(d', false), (d, true)] = .ok (.field g2) ∧ g1.mesh = g2.mesh ∧ g1.data.shape = g2.data.shape ∧
+      ∀ i c, inRange g1.data.shape i = true → c < f.nvdim → cget g1.data i c = cget g2.data i c) ∧
+    (∃ g12 g21, integrateChain f [(d, true), (d', true)] = .ok (.field g12) ∧
+      integrateChain f [(d', true), (d, true)] = .ok (.field g21) ∧ g12.mesh = g21.mesh ∧ g12.data.shape = g21.data.shape ∧
+      ∀ i c, inRange f.data.shape i = true → c < f.nvdim → cget g12.data i c = cget g21.data i c) := by
+  obtain ⟨gc, g1, h, g2, a1, a2, a3, a4, e1, e2, e3⟩ := cumulative_then_integrate_other f hf hsubs h2 d d' hd hd' hne
+  obtain ⟨k1, k12, k2, k21, b1, b2, b3, b4, e4, e5, e6⟩ := cumulative_cumulative_commute f hf d d' hd hd' hne
+  refine ⟨⟨g1, g2, ?_, ?_, e1, e2, e3⟩, ⟨k12, k21, ?_, ?_, e4, e5, e6⟩⟩
+  · simp only [integrateChain, a1, a2]
+  · simp only [integrateChain, a3, a4]
+  · simp only [integrateChain, b1, b2]
+  · simp only [integrateChain, b3, b4]
+
+/-! ## Several directions in any order: the same OBJECT
+
+`selF m ax` is the closed form of `Mesh.sel(d)` (`DFV/Lemmas/C06Obj.lean`): axis `ax` removed from
+corners, names, units and counts, same tolerance, no boundary conditions, and the subregions whose
+closed extent along the axis contains the centre of cell ⌊n/2⌋ (`selCoord`), each with the axis
+removed and stamped with the reduced region's names, units and tolerance. -/
+
+/-- `Mesh.sel(d)` in closed form (refinement of the code-shaped `sel`: centre lookup through
+`point2index` / `index2point`, `Region(...)` and `Mesh(region, cell=...)` constructors, subregion
+projection and setter) on every well-formed mesh with two or more dimensions whose subregions
+passed the setter. -/
+theorem sel_closed_form (m : Mesh) (hm : m.Inv) (hacc : SubsAcc m) (h2 : 2 ≤ m.ndim) (d : String) (ax : Nat)
+    (hax : m.region.dim2index d = .ok ax) : sel m d = .ok (selF m ax) :=
+  sel_eq_selF m hm hacc h2 d ax hax
+
+/-- Removing two directions commutes: `mesh.sel(d1).sel(d2)` and `mesh.sel(d2).sel(d1)` both
+succeed (three or more dimensions) and return the same mesh - region with names, units and
+tolerance, cell counts, and subregions (the same ones survive, in the same order, with the same
+corners); the result is well formed, its subregions pass its setter, and every other direction is
+still a direction. -/
+theorem sel_commute (m : Mesh) (hm : m.Inv) (hacc : SubsAcc m) (h3 : 3 ≤ m.ndim) (d1 d2 : String)
+    (hd1 : d1 ∈ m.region.dims) (hd2 : d2 ∈ m.region.dims) (hne : d1 ≠ d2) :
+    ∃ m1 m2 m12, sel m d1 = .ok m1 ∧ sel m1 d2 = .ok m12 ∧ sel m d2 = .ok m2 ∧ sel m2 d1 = .ok m12 ∧
+      m12.Inv ∧ SubsAcc m12 ∧ m12.ndim + 2 = m.ndim ∧
+      ∀ d' ∈ m.region.dims, d' ≠ d1 → d' ≠ d2 → d' ∈ m12.region.dims :=
+  sel_sel_comm m hm hacc h3 d1 d2 hd1 hd2 hne
+
+/-- The reduced mesh of ANY chain of removals depends only on the SET of directions: for every
+list of distinct directions (fewer than all) and every permutation of it the two chains of
+`Mesh.sel` return the same result (induction over the permutation; adjacent transpositions by
+`sel_commute`). -/
+theorem selMany_order_independent (m : Mesh) (hm : m.Inv) (hacc : SubsAcc m) (ds ds' : List String) (hp : ds.Perm ds')
+    (hnd : ds.Nodup) (hmem : ∀ d ∈ ds, d ∈ m.region.dims) (hlen : ds.length < m.ndim) :
+    selMany m ds = selMany m ds' :=
+  selMany_perm ds ds' hp m hm hacc hnd hmem hlen
+
+/-- **`mean` over a list / tuple of directions in any order is literally the same result** - for
+every list of distinct directions of the mesh (all of them, some, or none) and every permutation
+of it: the same reduced mesh (region with names, units, tolerance; counts; subregions), the same
+labels, mapping, unit, validity and values; with `meanSeq_eq_mean_list` also the
+direction-by-direction mean in any order. -/
+theorem mean_list_any_order (f : Fld) (hf : WF f) (hacc : SubsAcc f.mesh) (ds ds' : List String) (hp : ds.Perm ds')
+    (hnd : ds.Nodup) (hmem : ∀ d ∈ ds, d ∈ f.mesh.region.dims) :
+    mean f (.names ds) = mean f (.names ds') :=
+  mean_names_perm f hf hacc ds ds' hp hnd hmem
+
+/-- **Fubini at object level.**  Integrating direction by direction over ANY list of distinct
+directions of the mesh, in any order, is literally the same result as for any permutation of the
+list: the bare array `integrate()` when all directions are listed (`fubini_perm`), otherwise the
+SAME FIELD - reduced mesh with names, units, tolerance and subregions, labels, mapping, unit,
+validity and stored values - and both chains succeed. -/
+theorem integrateSeq_any_order (f : Fld) (hf : WF f) (hacc : SubsAcc f.mesh) (ds ds' : List String) (hp : ds.Perm ds')
+    (hnd : ds.Nodup) (hmem : ∀ d ∈ ds, d ∈ f.mesh.region.dims) :
+    integrateSeq f ds = integrateSeq f ds' ∧ ∃ r, integrateSeq f ds = .ok r := by
+  have hdl : f.mesh.region.dims.length = f.mesh.ndim := hf.1.1.2.2.1
+  by_cases hall : ds.Perm f.mesh.region.dims
+  · rw [fubini_perm f hf hacc ds hall, fubini_perm f hf hacc ds' (hp.symm.trans hall)]
+    exact ⟨rfl, _, integrate_all f⟩
+  · have hlen : ds.length < f.mesh.ndim := by rw [← hdl]; exact length_lt_of_not_perm ds _ hnd hmem hall
+    obtain ⟨g, hg⟩ := integrateSeq_ok f hf hacc ds hnd hmem hlen
+    obtain ⟨g', hg'⟩ := integrateSeq_ok f hf hacc ds' (hp.nodup_iff.mp hnd)
+      (fun d hd => hmem d (hp.mem_iff.mpr hd)) (by rw [← hp.length_eq]; exact hlen)
+    have := integrateSeq_perm_obj f hf hacc ds ds' hp hnd hmem hlen g g' hg hg'
+    rw [hg, hg', this]
+    exact ⟨rfl, _, rfl⟩
+
+/-! ## Linearity and per-component action, from hypotheses on the inputs only -/
+
+/-- `integrate` of a linear combination, total form: for two fields on the same mesh (well formed,
+subregions accepted by the setter), every call that the acceptance theorem allows - no direction
+without `cumulative`, or any direction of the mesh, cumulative or not - succeeds on `f`, on `g`
+and on `α·f + β·g`, on the same mesh, and the third result is `α·` the first `+ β·` the second,
+entry by entry. -/
+theorem integrate_linear_total (α β : Rat) (f g : Fld) (hf : WF f) (hsubs : SubsAcc f.mesh) (hm : g.mesh = f.mesh)
+    (hn : g.nvdim = f.nvdim) (hs : g.data.shape = f.data.shape) (dir : Dir) (cum : Bool)
+    (hok : match dir with | .none => cum = false | .name d => d ∈ f.mesh.region.dims | _ => False) :
+    ∃ rf rg r, integrate f dir cum = .ok rf ∧ integrate g dir cum = .ok rg ∧ integrate (lin α f β g) dir cum = .ok r ∧
+      r.mesh? = rf.mesh? ∧ r.shape = rf.shape ∧
+      ∀ i c, inRange r.shape i = true → c < f.nvdim → r.cval i c = α * rf.cval i c + β * rg.cval i c := by
+  have hwg : WF g := ⟨by rw [hm]; exact hf.1, by rw [hs, hm]; exact hf.2⟩
+  obtain ⟨rf, hrf⟩ := (integrate_ok_iff f hf hsubs dir cum).mpr hok
+  obtain ⟨rg, hrg⟩ := (integrate_ok_iff g hwg (by rw [hm]; exact hsubs) dir cum).mpr (by rw [hm]; exact hok)
+  obtain ⟨r, hr, h1, h2, h3⟩ := integrate_linear α β f g hf hm hn hs dir cum rf rg hrf hrg
+  exact ⟨rf, rg, r, hrf, hrg, hr, h1, h2, h3⟩
+
+/-- `mean` of a linear combination, total form: every accepted call (no direction; one direction
+of a mesh with two or more dimensions; a list of distinct directions in any order) succeeds on
+`f`, `g` and `α·f + β·g`, on the same mesh, and the means combine linearly entry by entry. -/
+theorem mean_linear_total (α β : Rat) (f g : Fld) (hf : WF f) (hsubs : SubsAcc f.mesh) (hm : g.mesh = f.mesh)
+    (hn : g.nvdim = f.nvdim) (hs : g.data.shape = f.data.shape) (dir : Dir)
+    (hok : match dir with
+           | .none => True
+           | .name d => d ∈ f.mesh.region.dims ∧ 2 ≤ f.mesh.ndim
+           | .names ds => ds.Nodup ∧ ∀ d ∈ ds, d ∈ f.mesh.region.dims
+           | .other => False) :
+    ∃ rf rg r, mean f dir = .ok rf ∧ mean g dir = .ok rg ∧ mean (lin α f β g) dir = .ok r ∧
+      r.mesh? = rf.mesh? ∧ r.shape = rf.shape ∧
+      ∀ i c, inRange r.shape i = true → c < f.nvdim → r.cval i c = α * rf.cval i c + β * rg.cval i c := by
+  have hwg : WF g := ⟨by rw [hm]; exact hf.1, by rw [hs, hm]; exact hf.2⟩
+  obtain ⟨rf, hrf⟩ := (mean_ok_iff f hf hsubs dir).mpr hok
+  obtain ⟨rg, hrg⟩ := (mean_ok_iff g hwg (by rw [hm]; exact hsubs) dir).mpr (by rw [hm]; exact hok)
+  obtain ⟨r, hr, h1, h2, h3⟩ := mean_linear α β f g hm hn hs dir rf rg hrf hrg
+  exact ⟨rf, rg, r, hrf, hrg, hr, h1, h2, h3⟩
+
+/-- `integrate` and `mean` act per component, total form: every accepted call succeeds on the field
+and on the scalar field of its component `c`, on the same mesh, and the latter's single component
+is component `c` of the former. -/
+theorem componentwise_total (f : Fld) (hf : WF f) (hsubs : SubsAcc f.mesh) (c : Nat) (hc : c < f.nvdim) :
+    (∀ dir cum, (match dir with | Dir.none => cum = false | .name d => d ∈ f.mesh.region.dims | _ => False) →
+      ∃ rf r, integrate f dir cum = .ok rf ∧ integrate (compFld f c) dir cum = .ok r ∧ r.mesh? = rf.mesh? ∧
+        r.shape = rf.shape ∧ r.nv = 1 ∧ ∀ i, inRange r.shape i = true → r.cval i 0 = rf.cval i c) ∧
+    (∀ dir, (match dir with
+             | Dir.none => True
+             | .name d => d ∈ f.mesh.region.dims ∧ 2 ≤ f.mesh.ndim
+             | .names ds => ds.Nodup ∧ ∀ d ∈ ds, d ∈ f.mesh.region.dims
+             | .other => False) →
+      ∃ rf r, mean f dir = .ok rf ∧ mean (compFld f c) dir = .ok r ∧ r.mesh? = rf.mesh? ∧
+        r.shape = rf.shape ∧ r.nv = 1 ∧ ∀ i, inRange r.shape i = true → r.cval i 0 = rf.cval i c) := by
+  constructor
+  · intro dir cum hok
+    obtain ⟨rf, hrf⟩ := (integrate_ok_iff f hf hsubs dir cum).mpr hok
+    obtain ⟨r, hr, h1, h2, h3, h4⟩ := integrate_componentwise f hf c hc dir cum rf hrf
+    exact ⟨rf, r, hrf, hr, h1, h2, h3, h4⟩
+  · intro dir hok
+    obtain ⟨rf, hrf⟩ := (mean_ok_iff f hf hsubs dir).mpr hok
+    obtain ⟨r, hr, h1, h2, h3, h4⟩ := mean_componentwise f c hc dir rf hrf
+    exact ⟨rf, r, hrf, hr, h1, h2, h3, h4⟩
+
+/-! ## Refusals, as equivalences -/
+
+/-- `integrate` is refused EXACTLY for the malformed calls (well-formed field, subregions accepted
+by the setter): no direction together with `cumulative=True`, a direction name the mesh does
+not have, or a direction that is not a single string (a list / tuple of names, a number, …).
+Nothing else is ever refused - in particular no direction of the mesh, cumulative or not. -/
+theorem integrate_rejected_iff (f : Fld) (hf : WF f) (hsubs : SubsAcc f.mesh) (dir : Dir) (cum : Bool) :
+    (∃ e, integrate f dir cum = .error e) ↔
+      (match dir with
+       | .none => cum = true
+       | .name d => d ∉ f.mesh.region.dims
+       | _ => True) := by
+  have hiff := integrate_ok_iff f hf hsubs dir cum
+  have hsplit : (∃ e, integrate f dir cum = .error e) ↔ ¬ ∃ r, integrate f dir cum = .ok r := by
+    cases integrate f dir cum with
+    | error e => simp
+    | ok r => simp
+  rw [hsplit, hiff]
+  cases dir with
+  | none => cases cum <;> simp
+  | name d => simp
+  | names ds => simp
+  | other => simp
+
+/-- … and the kind of refusal: a `TypeError` exactly for a direction that is not a single string,
+a `ValueError` exactly for `cumulative=True` without direction and for an unknown name. -/
+theorem integrate_refusal_kind (f : Fld) (hf : WF f) (hsubs : SubsAcc f.mesh) (dir : Dir) (cum : Bool) (e : Err)
+    (h : integrate f dir cum = .error e) :
+    (match dir with
+     | .none => e = .value
+     | .name _ => e = .value
+     | _ => e = .type) := by
+  cases dir with
+  | none =>
+    cases cum with
+    | true => unfold integrate at h; simp at h; exact h.symm
+    | false => rw [integrate_all] at h; cases h
+  | name d =>
+    simp only
+    cases hd : f.mesh.region.dim2index d with
+    | error e' =>
+      obtain ⟨h1, _⟩ := unknown_direction_rejected f d cum e' hd
+      rw [h1] at h; injection h with h
+      unfold Region.dim2index at hd
+      split at hd
+      · cases hd
+      · injection hd with hd; rw [← h, ← hd]
+    | ok ax =>
+      have := (integrate_ok_iff f hf hsubs (.name d) cum).mpr (mem_of_dim2index _ _ _ hd)
+      obtain ⟨r, hr⟩ := this
+      rw [hr] at h; cases h
+  | names ds => unfold integrate at h; simp at h; exact h.symm
+  | other => unfold integrate at h; simp at h; exact h.symm
+
+/-- `mean` is refused EXACTLY for the malformed calls (well-formed field, subregions accepted by
+the setter): a single direction name the mesh does not have, a single direction name on a 1-d
+mesh (there is no 0-dimensional mesh to return a field on), a list with a repeated name or with
+a name the mesh does not have, or a direction that is neither a name nor a list of names. -/
+theorem mean_rejected_iff (f : Fld) (hf : WF f) (hsubs : SubsAcc f.mesh) (dir : Dir) :
+    (∃ e, mean f dir = .error e) ↔
+      (match dir with
+       | .none => False
+       | .name d => d ∉ f.mesh.region.dims ∨ f.mesh.ndim < 2
+       | .names ds => ¬ ds.Nodup ∨ ∃ d ∈ ds, d ∉ f.mesh.region.dims
+       | .other => True) := by
+  have hiff := mean_ok_iff f hf hsubs dir
+  have hsplit : (∃ e, mean f dir = .error e) ↔ ¬ ∃ r, mean f dir = .ok r := by
+    cases mean f dir with
+    | error e => simp
+    | ok r => simp
+  rw [hsplit, hiff]
+  cases dir with
+  | none => simp
+  | name d =>
+    simp only [not_and_or, not_le]
+  | names ds =>
+    simp only [not_and_or, not_forall, exists_prop]
+  | other => simp
+
 /-! ## Non-vacuity: the hypotheses of the theorems above are met by concrete fields
 (`exFld`: 2×3 cells, two components; `exFld1`: 1-d, cells of length 1/2; `exFld3`: 2×2×3 cells
 of sizes 1, 1/2, 2 — `DFV/Lemmas/C06Ok.lean`; `exFldS`: `exFld` with two subregions —
@@ -1426,14 +2030,14 @@ example : WF exFld ∧ WF exFld1 ∧ WF exFld3 := ⟨exFld_wf, exFld1_wf, exFld3
 example : (∃ g, integrate exFld3 (.name "y") false = .ok (.field g)) ∧
     (∃ g, integrate exFld3 (.name "y") true = .ok (.field g)) ∧
     (∃ g, mean exFld3 (.name "y") = .ok (.field g)) :=
-  ⟨by obtain ⟨g, h, _⟩ := (integrate_dir_ok exFld3 exFld3_wf (subsFit_nil _ rfl) "y" (by decide)).1 (by decide); exact ⟨g, h⟩,
+  ⟨by obtain ⟨g, h, _⟩ := (integrate_dir_ok exFld3 exFld3_wf (subsAcc_nil _ rfl) "y" (by decide)).1 (by decide); exact ⟨g, h⟩,
    integrate_cum_ok exFld3 exFld3_wf "y" (by decide),
-   mean_dir_ok exFld3 exFld3_wf (subsFit_nil _ rfl) (by decide) "y" (by decide)⟩
+   mean_dir_ok exFld3 exFld3_wf (subsAcc_nil _ rfl) (by decide) "y" (by decide)⟩
 
 /-- hypotheses of `integrate_dir_1d`, `cumulative_last_1d` -/
 example : (∃ v, integrate exFld1 (.name "x") false = .ok (.vals v)) ∧
     (∃ g, integrate exFld1 (.name "x") true = .ok (.field g)) :=
-  ⟨(integrate_dir_ok exFld1 exFld1_wf (subsFit_nil _ rfl) "x" (by decide)).2 rfl, integrate_cum_ok exFld1 exFld1_wf "x" (by decide)⟩
+  ⟨(integrate_dir_ok exFld1 exFld1_wf (subsAcc_nil _ rfl) "x" (by decide)).2 rfl, integrate_cum_ok exFld1 exFld1_wf "x" (by decide)⟩
 
 /-- `fubini` / `fubini_total`: all six orders of three directions -/
 example : ∀ ds ∈ [["x", "y", "z"], ["x", "z", "y"], ["y", "x", "z"], ["y", "z", "x"], ["z", "x", "y"], ["z", "y", "x"]],
@@ -1441,14 +2045,14 @@ example : ∀ ds ∈ [["x", "y", "z"], ["x", "z", "y"], ["y", "x", "z"], ["y", "
   intro ds hds
   simp only [List.mem_cons, List.mem_nil_iff, or_false] at hds
   rcases hds with rfl | rfl | rfl | rfl | rfl | rfl <;>
-    exact fubini_total exFld3 exFld3_wf (subsFit_nil _ rfl) _ (by decide) (by decide) rfl
+    exact fubini_total exFld3 exFld3_wf (subsAcc_nil _ rfl) _ (by decide) (by decide) rfl
 
 /-- hypotheses of `mean_dirs_eq`: a proper subset of the directions, in an order that is not
 the storage order -/
 example : (∃ gm, mean exFld3 (.names ["z", "x"]) = .ok (.field gm)) ∧
     (∃ gi, integrateSeq exFld3 ["z", "x"] = .ok (.field gi)) :=
-  ⟨mean_dirs_ok exFld3 exFld3_wf (subsFit_nil _ rfl) _ (by decide) (by decide) (by decide),
-   integrateSeq_ok exFld3 exFld3_wf (subsFit_nil _ rfl) _ (by decide) (by decide) (by decide)⟩
+  ⟨mean_dirs_ok exFld3 exFld3_wf (subsAcc_nil _ rfl) _ (by decide) (by decide) (by decide),
+   integrateSeq_ok exFld3 exFld3_wf (subsAcc_nil _ rfl) _ (by decide) (by decide) (by decide)⟩
 
 /-- `mean_all_named`: a permutation of the directions -/
 example : mean exFld (.names ["y", "x"]) = mean exFld .none :=
@@ -1459,32 +2063,32 @@ example : mean exFld (.names ["y", "x"]) = mean exFld .none :=
 example : ∃ rf rg r', integrate exFld (.name "x") false = .ok rf ∧
     integrate (lin 2 exFld (-3) exFld) (.name "x") false = .ok rg ∧
     integrate (translate [5, -7/2] exFld) (.name "x") false = .ok r' := by
-  obtain ⟨g1, h1, _⟩ := (integrate_dir_ok exFld exFld_wf (subsFit_nil _ rfl) "x" (by decide)).1 (by decide)
-  obtain ⟨g2, h2, _⟩ := (integrate_dir_ok (lin 2 exFld (-3) exFld) ⟨exFld_wf.1, exFld_wf.2⟩ (subsFit_nil _ rfl) "x" (by decide)).1 (by decide)
-  obtain ⟨g3, h3, _⟩ := (integrate_dir_ok (translate [5, -7/2] exFld) (translate_wf _ _ exFld_wf) (subsFit_nil _ rfl) "x" (by decide)).1 (by decide)
+  obtain ⟨g1, h1, _⟩ := (integrate_dir_ok exFld exFld_wf (subsAcc_nil _ rfl) "x" (by decide)).1 (by decide)
+  obtain ⟨g2, h2, _⟩ := (integrate_dir_ok (lin 2 exFld (-3) exFld) ⟨exFld_wf.1, exFld_wf.2⟩ (subsAcc_nil _ rfl) "x" (by decide)).1 (by decide)
+  obtain ⟨g3, h3, _⟩ := (integrate_dir_ok (translate [5, -7/2] exFld) (translate_wf _ _ exFld_wf) (subsAcc_nil _ rfl) "x" (by decide)).1 (by decide)
   exact ⟨_, _, _, h1, h2, h3⟩
 
 /-- `SubsFit` is met by a concrete mesh with two subregions (`exFldS`: `r0` = [1,2]×[1,3],
 `r1` = [0,1]×[3,4] on the 2×3 mesh), so `sel_subregions`, the `…_ok` theorems, `fubini_perm`,
 `integrate_ok_iff`, `mean_ok_iff` apply to meshes that really carry subregions -/
-example : WF exFldS ∧ SubsFit exFldS.mesh ∧ exFldS.mesh.subs.length = 2 ∧
-    (∃ g, integrate exFldS (.name "x") false = .ok (.field g) ∧ SubsFit g.mesh) ∧
+example : WF exFldS ∧ SubsFit exFldS.mesh ∧ SubsAcc exFldS.mesh ∧ exFldS.mesh.subs.length = 2 ∧
+    (∃ g, integrate exFldS (.name "x") false = .ok (.field g) ∧ SubsAcc g.mesh) ∧
     integrateSeq exFldS ["y", "x"] = integrate exFldS .none false :=
-  ⟨exFldS_wf, exFldS_fits, rfl,
-   (integrate_dir_ok exFldS exFldS_wf exFldS_fits "x" (by decide)).1 (by decide),
-   fubini_perm exFldS exFldS_wf exFldS_fits _ (List.Perm.swap "x" "y" [])⟩
+  ⟨exFldS_wf, exFldS_fits, subsAcc_of_fit _ exFldS_wf.1 exFldS_fits, rfl,
+   (integrate_dir_ok exFldS exFldS_wf (subsAcc_of_fit _ exFldS_wf.1 exFldS_fits) "x" (by decide)).1 (by decide),
+   fubini_perm exFldS exFldS_wf (subsAcc_of_fit _ exFldS_wf.1 exFldS_fits) _ (List.Perm.swap "x" "y" [])⟩
 
 /-- hypotheses of `mean_linear`, `mean_componentwise`, `mean_translation_invariant`: the means
 exist for a direction, for a list, and on the moved field -/
 example : (∃ r, mean exFld3 (.name "y") = .ok r) ∧ (∃ r, mean exFld3 (.names ["z", "x"]) = .ok r) ∧
     (∃ r, mean (translate [1, 2, 3] exFld3) (.names ["z", "x"]) = .ok r) :=
-  ⟨(mean_ok_iff exFld3 exFld3_wf (subsFit_nil _ rfl) (.name "y")).mpr ⟨by decide, by decide⟩,
-   (mean_ok_iff exFld3 exFld3_wf (subsFit_nil _ rfl) (.names ["z", "x"])).mpr ⟨by decide, by decide⟩,
-   (mean_ok_iff _ (translate_wf _ _ exFld3_wf) (subsFit_nil _ rfl) (.names ["z", "x"])).mpr ⟨by decide, by decide⟩⟩
+  ⟨(mean_ok_iff exFld3 exFld3_wf (subsAcc_nil _ rfl) (.name "y")).mpr ⟨by decide, by decide⟩,
+   (mean_ok_iff exFld3 exFld3_wf (subsAcc_nil _ rfl) (.names ["z", "x"])).mpr ⟨by decide, by decide⟩,
+   (mean_ok_iff _ (translate_wf _ _ exFld3_wf) (subsAcc_nil _ rfl) (.names ["z", "x"])).mpr ⟨by decide, by decide⟩⟩
 
 /-- hypotheses of `integrateSeq_perm` / `integrateSeq_vals`: two orders of a proper subset -/
 example : ∃ g g', integrateSeq exFld3 ["z", "x"] = .ok (.field g) ∧ integrateSeq exFld3 ["x", "z"] = .ok (.field g') := by
-  obtain ⟨g, g', h, h', _⟩ := integrateSeq_perm_total exFld3 exFld3_wf (subsFit_nil _ rfl) ["z", "x"] ["x", "z"]
+  obtain ⟨g, g', h, h', _⟩ := integrateSeq_perm_total exFld3 exFld3_wf (subsAcc_nil _ rfl) ["z", "x"] ["x", "z"]
     (by decide) (by decide) (by decide) (List.Perm.swap "x" "z" [])
   exact ⟨g, g', h, h'⟩
 
@@ -1515,11 +2119,114 @@ example : ∀ t, cget exFld.data t 0 ≤ cget (absF exFld).data t 0 := by
 /-- hypotheses of `meanSeq_eq_mean_list`: a direction-by-direction mean and the list mean exist
 for an order that is not the storage order -/
 example : ∃ gs gm, meanSeq exFld3 ["z", "x"] = .ok (.field gs) ∧ mean exFld3 (.names ["z", "x"]) = .ok (.field gm) := by
-  obtain ⟨gs, gm, h1, h2, _⟩ := meanSeq_total exFld3 exFld3_wf (subsFit_nil _ rfl) ["z", "x"]
+  obtain ⟨gs, gm, h1, h2, _⟩ := meanSeq_total exFld3 exFld3_wf (subsAcc_nil _ rfl) ["z", "x"]
     (by decide) (by decide) (by decide)
   exact ⟨gs, gm, h1, h2⟩
 
 /-- refusals are reached: an unknown name, a duplicate -/
 example : exFld.mesh.region.dim2index "q" = .error .value ∧ hasDup ["x", "y", "x"] = true := ⟨by decide, by decide⟩
+
+/-! ### second round -/
+
+/-- `SubsAcc` is met by a mesh whose subregion does NOT fit exactly (`exFldT`: the lower x face of
+`t0` sits 1e-13 inside a cell face): the setter accepts it (`setter_accepts_iff`), and the
+success theorems apply - `integrate(d)`, `mean(d)`, Fubini - although `SubsFit` fails -/
+example : WF exFldT ∧ SubsAcc exFldT.mesh ∧ ¬ SubsFit exFldT.mesh ∧
+    (∃ t, setSubs exFldT.mesh [("t0", canon exT0)] = .ok t) ∧
+    (∃ g, integrate exFldT (.name "y") false = .ok (.field g) ∧ SubsAcc g.mesh) ∧
+    (∃ g, mean exFldT (.name "x") = .ok (.field g)) ∧
+    integrateSeq exFldT ["y", "x"] = integrate exFldT .none false :=
+  ⟨exFldT_wf, exFldT_acc, exFldT_not_fit,
+   ((setter_accepts_iff exFldT.mesh _).1).mpr (fun p hp => by
+      have : p = ("t0", canon exT0) := by simpa using hp
+      subst this; exact exFldT_acc ("t0", exT0) (by simp [exFldT])),
+   (integrate_dir_ok exFldT exFldT_wf exFldT_acc "y" (by decide)).1 (by decide),
+   mean_dir_ok exFldT exFldT_wf exFldT_acc (by decide) "x" (by decide),
+   fubini_perm exFldT exFldT_wf exFldT_acc _ (List.Perm.swap "x" "y" [])⟩
+
+/-- hypotheses of `setter_accepts_per_axis`, `accepted_subregion_inherited`, `sel_subregions_acc` -/
+example : SubOk exFldT.mesh (canon exT0) ∧ (∃ mc, sel { exFldT.mesh with subs := [] } "y" = .ok mc) := by
+  refine ⟨exFldT_acc ("t0", exT0) (by simp [exFldT]), ?_⟩
+  obtain ⟨_, mc, _, _, h, _⟩ := sel_subregions_acc exFldT.mesh exFldT_wf.1 exFldT_acc (by decide) "y" (by decide)
+  exact ⟨mc, h⟩
+
+/-- hypotheses of `rotate90_cells`, `rotate90_integrate_all`, `rotate90_mean_all`: a vector field
+(two mapped components, 2×3 cells) is turned by an odd, a negative and a large number of quarter
+turns, about its centre and about a far reference point, in place and copying -/
+example : WF exFldV ∧ CellLen exFldV ∧ T.FInv exFldV ∧
+    (∃ x g, T.rotate90F exFldV "x" "y" 1 none true = .ok (x, g)) ∧
+    (∃ x g, T.rotate90F exFldV "x" "y" (-3) (some [7, -5/2]) false = .ok (x, g)) ∧
+    (∃ x g, T.rotate90F exFldV "x" "y" 1002 none true = .ok (x, g)) :=
+  ⟨exFldV_wf, exFldV_cellLen, exFldV_finv, exFldV_turn_ok 1 none rfl true,
+   exFldV_turn_ok (-3) (some [7, -5/2]) rfl false, exFldV_turn_ok 1002 none rfl true⟩
+
+/-- `turns_history` on a history that mixes a negative-factor scaling, a quarter turn and a
+translation; the turn really happens (the first step of `[rot]` is accepted) -/
+example : ∃ x g, T.rotate90F exFldV "x" "y" 3 none true = .ok (x, g) ∧ fstep exFldV (.rot "x" "y" 3 none) = x := by
+  obtain ⟨x, g, h⟩ := exFldV_turn_ok 3 none rfl true
+  exact ⟨x, g, h, by simp only [fstep, h]⟩
+
+/-- hypotheses of `cumulative_between`: two cells of a line with one cell strictly between -/
+example : inRange exFld3.data.shape [1, 0, 0] = true ∧
+    ([1, 0, 0] : List Nat).getD 2 0 + 1 + 1 < exFld3.data.shape.getD 2 0 := ⟨by decide, by decide⟩
+
+/-- `cumulative_then_integrate_same` / `…_other` / `cumulative_cumulative_commute`: the integrals
+exist on the 3-d example (cells 1, 1/2, 2), for two different directions in non-storage order -/
+example : (∃ gc r, integrate exFld3 (.name "z") true = .ok (.field gc) ∧ integrate gc (.name "z") false = .ok r) ∧
+    (∃ gc g1 h g2, integrate exFld3 (.name "z") true = .ok (.field gc) ∧
+      integrate gc (.name "x") false = .ok (.field g1) ∧ integrate exFld3 (.name "x") false = .ok (.field h) ∧
+      integrate h (.name "z") true = .ok (.field g2)) := by
+  constructor
+  · obtain ⟨gc, hgc⟩ := integrate_cum_ok exFld3 exFld3_wf "z" (by decide)
+    obtain ⟨_, _, hm, _, _, _, _⟩ := cum_spec exFld3 "z" gc hgc
+    obtain ⟨g, hg, _⟩ := (integrate_dir_ok gc (cum_wf exFld3 exFld3_wf "z" gc hgc) (by rw [hm]; exact subsAcc_nil _ rfl) "z"
+      (by rw [hm]; decide)).1 (by rw [hm]; decide)
+    exact ⟨gc, _, hgc, hg⟩
+  · obtain ⟨gc, g1, h, g2, a, b, c, d, _⟩ := cumulative_then_integrate_other exFld3 exFld3_wf (subsAcc_nil _ rfl)
+      (by decide) "z" "x" (by decide) (by decide) (by decide)
+    exact ⟨gc, g1, h, g2, a, b, c, d⟩
+
+/-- both sides of the refusal equivalences are inhabited: malformed calls exist and are refused -/
+example : (∃ e, integrate exFld (.name "q") false = .error e) ∧ (∃ e, integrate exFld .none true = .error e) ∧
+    (∃ e, mean exFld1 (.name "x") = .error e) ∧ (∃ e, mean exFld (.names ["x", "q"]) = .error e) :=
+  ⟨(integrate_rejected_iff exFld exFld_wf (subsAcc_nil _ rfl) (.name "q") false).mpr (by decide),
+   (integrate_rejected_iff exFld exFld_wf (subsAcc_nil _ rfl) .none true).mpr rfl,
+   (mean_rejected_iff exFld1 exFld1_wf (subsAcc_nil _ rfl) (.name "x")).mpr (Or.inr (by decide)),
+   (mean_rejected_iff exFld exFld_wf (subsAcc_nil _ rfl) (.names ["x", "q"])).mpr (Or.inr ⟨"q", by decide, by decide⟩)⟩
+
+/-- `sel_commute`, `selMany_order_independent`, `mean_list_any_order`, `integrateSeq_any_order` on
+meshes that really carry subregions (`exFldS`: two exactly fitting ones; `exFldT`: one accepted only
+within the tolerances) and on the 3-d example, for orders that are not the storage order -/
+example : mean exFldS (.names ["y", "x"]) = mean exFldS (.names ["x", "y"]) ∧
+    mean exFld3 (.names ["z", "x"]) = mean exFld3 (.names ["x", "z"]) ∧
+    integrateSeq exFld3 ["z", "x"] = integrateSeq exFld3 ["x", "z"] ∧
+    integrateSeq exFldT ["y", "x"] = integrateSeq exFldT ["x", "y"] ∧
+    (∃ m1 m2 m12, sel exFld3.mesh "z" = .ok m1 ∧ sel m1 "x" = .ok m12 ∧ sel exFld3.mesh "x" = .ok m2 ∧ sel m2 "z" = .ok m12) := by
+  refine ⟨mean_list_any_order exFldS exFldS_wf (subsAcc_of_fit _ exFldS_wf.1 exFldS_fits) _ _ (List.Perm.swap "x" "y" []) (by decide) (by decide),
+    mean_list_any_order exFld3 exFld3_wf (subsAcc_nil _ rfl) _ _ (List.Perm.swap "x" "z" []) (by decide) (by decide),
+    (integrateSeq_any_order exFld3 exFld3_wf (subsAcc_nil _ rfl) _ _ (List.Perm.swap "x" "z" []) (by decide) (by decide)).1,
+    (integrateSeq_any_order exFldT exFldT_wf exFldT_acc _ _ (List.Perm.swap "x" "y" []) (by decide) (by decide)).1, ?_⟩
+  obtain ⟨m1, m2, m12, a, b, c, d, _⟩ := sel_commute exFld3.mesh exFld3_wf.1 (subsAcc_nil _ rfl) (by decide) "z" "x" (by decide) (by decide) (by decide)
+  exact ⟨m1, m2, m12, a, b, c, d⟩
+
+/-- hypotheses of `rotate90_integrate_dir` / `rotate90_mean_dir`: the directional integral and
+mean of a TURNED vector field exist (odd turn about a far point), so the theorems speak about
+something; and of the total forms of linearity on a 3-d field -/
+example : ∃ x g gi r, T.rotate90F exFldV "x" "y" 3 (some [7, -5/2]) true = .ok (x, g) ∧
+    integrate g (.name "y") false = .ok (.field gi) ∧ mean g (.name "y") = .ok r := by
+  obtain ⟨x, g, h⟩ := exFldV_turn_ok 3 (some [7, -5/2]) rfl true
+  obtain ⟨hwg, hacc, _, _⟩ := rotate90_then_integrate_ok exFldV exFldV_wf rfl "x" "y" 3 _ true x g h
+  obtain ⟨_, _, _, _, _, _, _, _, _, hnd, hdims, _⟩ := rotate90_cells exFldV exFldV_wf "x" "y" 3 _ true x g h
+  have hd : "y" ∈ g.mesh.region.dims := by rw [hdims]; decide
+  have h2 : 2 ≤ g.mesh.ndim := by rw [hnd]; decide
+  obtain ⟨gi, hgi, _⟩ := (integrate_dir_ok g hwg hacc "y" hd).1 h2
+  obtain ⟨gm, hgm⟩ := mean_dir_ok g hwg hacc h2 "y" hd
+  exact ⟨x, g, gi, _, h, hgi, hgm⟩
+
+example : ∃ rf rg r, integrate exFld3 (.name "z") true = .ok rf ∧ integrate exFld3 (.name "z") true = .ok rg ∧
+    integrate (lin 2 exFld3 (-3) exFld3) (.name "z") true = .ok r := by
+  obtain ⟨rf, rg, r, a, b, c, _⟩ := integrate_linear_total 2 (-3) exFld3 exFld3 exFld3_wf (subsAcc_nil _ rfl) rfl rfl rfl
+    (.name "z") true (by decide)
+  exact ⟨rf, rg, r, a, b, c⟩
 
 end DFV.C06
